@@ -9,13 +9,17 @@
   other actions (the goroutines' steps) are hidden.
 
   `accept h` searches for an execution of the model whose visible actions are exactly `h`:
-  * the hidden global steps are three blocks whose positions in `h` are enumerated:
-      P = Shutdown takes connsMu and closes closeCh (+ first poll),
-      R = Shutdown's last poll / select, return and unlock,
-      Q = Close: lock, closeCh, close every registered socket, unlock;
-  * given (P, R, Q) the connections only interact through `closing`, the mutex and the counter,
+  * a history may contain any number of calls of Shutdown and Close (numbered; one after the other or
+    overlapping).  The hidden global steps of every call are two blocks whose positions in `h` are
+    enumerated:
+      P = a Shutdown takes connsMu and closes closeCh (+ first poll),
+      R = its last poll / select, return and unlock,
+      Q1 = a Close: lock, closeCh;  Q2 = every registered socket closed, unlock;
+    a call holds the mutex from its first block to its second, so the calls' sections [P, R], [Q1, Q2]
+    follow each other in some order, which is enumerated as well (`Plan`);
+  * given the plan the connections only interact through `closing`, the mutex and the counter,
     so each connection's hidden steps are found by a depth-first search over `cstep` (the very
-    function `step` uses) against its own events and the three blocks;
+    function `step` uses) against its own events and the blocks;
   * the per-connection solutions are merged into one action list, which is then RUN through
     `C11.run init` — a history is accepted only if that run succeeds and its visible actions are the
     history (`accept_sound`).
@@ -33,10 +37,17 @@ inductive Ev where
   | send (c : ConnId) (r : Req) | gone (c : ConnId) | answer (c : ConnId) | oend (c : ConnId)
   | origin (c : ConnId) | resp (c : ConnId) (cl : Bool) | closed (c : ConnId)
   | echo (c : ConnId)   -- the client got back through the tunnel what it had sent into it
-  | lclose | shutCall | shutRet (isNil : Bool) | closeCall | closeRet | deadline | cancel | runRet
+  | lclose
+  | shutCall (k : CallId) (noLimit cancellable : Bool)   -- call number k of Shutdown, kind of its context
+  | shutRet (k : CallId) (r : Option Why)                -- … returned nil / its context's error
+  | closeCall (k : CallId) | closeRet (k : CallId)
+  | deadline (k : CallId)     -- the deadline of the context of call k has passed
+  | ctxCancel (k : CallId)    -- the context of call k is cancelled (rig a: a second shutdown signal is delivered)
+  | cancel | runRet
   | known      -- harness marker "closing is certainly set" (not an action; ignored by the acceptor)
-  | nolimit    -- configuration marker: the context handed to Shutdown has no deadline (shutdown timeout 0);
-               -- not an action: the execution starts from `initNoLimit`
+  | nolimit    -- configuration marker: shutdown timeout 0, the context `run` hands to Shutdown has no deadline;
+               -- not an action: the execution starts from `initCfg true _`
+  | signals    -- configuration marker: ShutdownSignals configured (`initCfg _ true`)
   deriving DecidableEq, Repr, Inhabited
 
 def Ev.action : Ev → Option Action
@@ -44,19 +55,22 @@ def Ev.action : Ev → Option Action
   | .hello c => some (.hello c) | .part c => some (.sendPartial c) | .send c r => some (.send c r)
   | .gone c => some (.gone c) | .answer c => some (.originAnswer c) | .oend c => some (.originEnd c)
   | .origin c => some (.originSeen c) | .resp c cl => some (.respSeen c cl) | .echo c => some (.echoSeen c)
-  | .closed c => some (.closedSeen c) | .lclose => some .listenerClose | .shutCall => some .shutdownCall
-  | .shutRet n => some (.shutdownRet n) | .closeCall => some .closeCall | .closeRet => some .closeRet
-  | .deadline => some .ctxExpire | .cancel => some .cancel | .runRet => some .runRet
+  | .closed c => some (.closedSeen c) | .lclose => some .listenerClose
+  | .shutCall k nl cb => some (.shutdownCall k nl cb)
+  | .shutRet k r => some (.shutdownRet k r) | .closeCall k => some (.closeCall k) | .closeRet k => some (.closeRet k)
+  | .deadline k => some (.ctxExpire k) | .ctxCancel k => some (.ctxCancel k)
+  | .cancel => some .cancel | .runRet => some .runRet
   | .known => none
   | .nolimit => none
+  | .signals => none
 
 /-- markers are not actions -/
 def Ev.isMarker : Ev → Bool
-  | .known | .nolimit => true
+  | .known | .nolimit | .signals => true
   | _ => false
 
 /-- the initial state a history is run from -/
-def startOf (h : List Ev) : State := if h.contains .nolimit then initNoLimit else init
+def startOf (h : List Ev) : State := initCfg (h.contains .nolimit) (h.contains .signals)
 
 /-- the visible part of an action -/
 def visible : Action → Option Ev
@@ -64,9 +78,11 @@ def visible : Action → Option Ev
   | .hello c => some (.hello c) | .sendPartial c => some (.part c) | .send c r => some (.send c r)
   | .gone c => some (.gone c) | .originAnswer c => some (.answer c) | .originEnd c => some (.oend c)
   | .originSeen c => some (.origin c) | .respSeen c cl => some (.resp c cl) | .echoSeen c => some (.echo c)
-  | .closedSeen c => some (.closed c) | .listenerClose => some .lclose | .shutdownCall => some .shutCall
-  | .shutdownRet n => some (.shutRet n) | .closeCall => some .closeCall | .closeRet => some .closeRet
-  | .ctxExpire => some .deadline | .cancel => some .cancel | .runRet => some .runRet
+  | .closedSeen c => some (.closed c) | .listenerClose => some .lclose
+  | .shutdownCall k nl cb => some (.shutCall k nl cb)
+  | .shutdownRet k r => some (.shutRet k r) | .closeCall k => some (.closeCall k) | .closeRet k => some (.closeRet k)
+  | .ctxExpire k => some (.deadline k) | .ctxCancel k => some (.ctxCancel k)
+  | .cancel => some .cancel | .runRet => some .runRet
   | _ => none
 
 def Ev.conn? : Ev → Option ConnId
@@ -186,12 +202,19 @@ def solveConn (items : Array Item) : Option (List (List Mv)) :=
 
 /-! ## global search -/
 
+/-- the section of one call in which it holds the mutex: [P, R] of a Shutdown, [Q1, Q2] of a Close -/
+structure Block where
+  shut : Bool := true        -- a call of Shutdown (else of Close)
+  id : CallId := 0
+  a : Nat := 0               -- gap (index of the event it precedes) of its first block
+  b : Nat := 0               -- … of its second block
+  isNil : Bool := true       -- Shutdown: returns nil
+  deriving Repr, Inhabited
+
+/-- the sections of all calls, in the order in which they hold the mutex (`a ≤ b` within a block,
+    `b` of one ≤ `a` of the next) -/
 structure Plan where
-  p : Option Nat := none     -- gap (index of the event it precedes) of block P
-  r : Option Nat := none
-  isNil : Bool := true
-  q : Option Nat := none     -- Close takes the lock and closes closeCh
-  q2 : Option Nat := none    -- Close sweeps the map and unlocks
+  blocks : Array Block := #[]
   deriving Repr, Inhabited
 
 /-- events that every connection sees as "listener closed" -/
@@ -199,42 +222,54 @@ def isLClose : Ev → Bool
   | .lclose | .cancel => true
   | _ => false
 
-/-- the item list of connection `k` under a plan (markers P, R, Q merged at their gaps) -/
-def itemsOf (h : Array Ev) (k : ConnId) (pl : Plan) (mustCount : Bool) : Array Item := Id.run do
+/-- the item list of connection `k` under a plan (the blocks merged at their gaps); `mc[i]` = the
+    connection must be counted at the first poll of block `i` -/
+def itemsOf (h : Array Ev) (k : ConnId) (pl : Plan) (mc : Array Bool) : Array Item := Id.run do
   let mut out : Array Item := #[]
   for g in [0:h.size + 1] do
-    if pl.p = some g then out := out.push (.mP mustCount)
-    if pl.r = some g then out := out.push (.mR pl.isNil)
-    if pl.q = some g then out := out.push .mQ1
-    if pl.q2 = some g then out := out.push .mQ2
+    for i in [0:pl.blocks.size] do
+      let bl := pl.blocks[i]!
+      if bl.a = g then out := out.push (if bl.shut then .mP (mc.getD i false) else .mQ1)
+      if bl.b = g then out := out.push (if bl.shut then .mR bl.isNil else .mQ2)
     if g < h.size then
       let e := h[g]!
       if e.conn? = some k then out := out.push (.ev e)
       else if isLClose e then out := out.push .mL
   return out
 
-/-- memo key: the plan as this connection sees it (numbers of its own items before each block) -/
-def localKey (h : Array Ev) (k : ConnId) (pl : Plan) (mustCount : Bool) : Nat × Nat × Nat × Nat × Nat × Bool × Bool :=
-  let cnt (g : Option Nat) : Nat := match g with
-    | none => 0
-    | some g => 1 + (h.extract 0 g).foldl (fun n e => if e.conn? = some k ∨ isLClose e then n + 1 else n) 0
-  (k, cnt pl.p, cnt pl.r, cnt pl.q, cnt pl.q2, pl.isNil, mustCount)
+/-- memo key: the plan as this connection sees it — its item list with its own events abbreviated to
+    their number between two shared items -/
+def localKey (h : Array Ev) (k : ConnId) (pl : Plan) (mc : Array Bool) : Nat × List Nat :=
+  let items := itemsOf h k pl mc
+  let (acc, run) := items.foldl (fun (acc, run) it => match it with
+    | .ev _ => (acc, run + 1)
+    | .mL => (1 :: run :: acc, 0)
+    | .mP b => ((if b then 3 else 2) :: run :: acc, 0)
+    | .mR b => ((if b then 5 else 4) :: run :: acc, 0)
+    | .mQ1 => (6 :: run :: acc, 0)
+    | .mQ2 => (7 :: run :: acc, 0)) (([] : List Nat), 0)
+  (k, run :: acc)
 
-abbrev Memo := Std.HashMap (Nat × Nat × Nat × Nat × Nat × Bool × Bool) (Option (List (List Mv)))
+abbrev Memo := Std.HashMap (Nat × List Nat) (Option (List (List Mv)))
 
-def solveMemo (h : Array Ev) (k : ConnId) (pl : Plan) (mustCount : Bool) :
+def solveMemo (h : Array Ev) (k : ConnId) (pl : Plan) (mc : Array Bool) :
     StateM Memo (Option (List (List Mv))) := do
-  let key := localKey h k pl mustCount
+  let key := localKey h k pl mc
   match (← get).get? key with
   | some r => return r
   | none =>
-    let r := solveConn (itemsOf h k pl mustCount)
+    let r := solveConn (itemsOf h k pl mc)
     modify (·.insert key r)
     return r
 
+/-- the call of `Close` that is walking the map -/
+def sweeper (s : State) : CallId := match s.lock with
+  | .closer j => j
+  | _ => 0
+
 def mvActions (s : State) (k : ConnId) : Mv → List Action
   | .accept => (if s.serve = .checking then [.serveCheck] else []) ++ [.accept k]
-  | .swept => [.closeConn k]
+  | .swept => [.closeConn (sweeper s) k]
   | m => m.acts.map (.conn k)
 
 def runList (s : State) (as : List Action) : Option State := run s as
@@ -268,26 +303,26 @@ def assemble (h : Array Ev) (conns : List ConnId) (pl : Plan)
   let mut m : Merge := { s := startOf h.toList, rig := rigA }
   let mut cur : Std.HashMap ConnId Nat := {}
   for g in [0:h.size + 1] do
-    if pl.p = some g then
-      let (m', c') ← flushAll m conns sols cur
-      m ← m'.apply [.shutLock, .shutCloseCh, .shutPoll]; cur := c'
-    if pl.r = some g then
-      let (m', c') ← flushAll m conns sols cur
-      cur := c'
-      if pl.isNil then
-        let m1 ← if m'.s.shut = .selecting then m'.apply [.shutTimer, .shutPoll] else some m'
-        m ← m1.apply [.shutUnlock]
-      else
-        let m1 ← if m'.s.shut = .polling then m'.apply [.shutPoll] else some m'
-        m ← m1.apply [.shutCtx, .shutUnlock]
-      if rigA then m ← m.apply [.runAfterShutdown]
-    if pl.q = some g then
-      let (m', c') ← flushAll m conns sols cur
-      m ← m'.apply [.closeLock, .closeCloseCh]; cur := c'
-    if pl.q2 = some g then
-      let (m', c') ← flushAll m conns sols cur
-      m ← m'.apply [.closeAll, .closeUnlock]; cur := c'
-      if rigA then m ← m.apply [.runAfterClose]
+    for bl in pl.blocks do
+      let k := bl.id
+      if bl.a = g then
+        let (m', c') ← flushAll m conns sols cur
+        cur := c'
+        m ← m'.apply (if bl.shut then [.shutLock k, .shutCloseCh k, .shutPoll k] else [.closeLock k, .closeCloseCh k])
+      if bl.b = g then
+        let (m', c') ← flushAll m conns sols cur
+        cur := c'
+        if bl.shut then
+          if bl.isNil then
+            let m1 ← if (m'.s.shuts k).pc = .selecting then m'.apply [.shutTimer k, .shutPoll k] else some m'
+            m ← m1.apply [.shutUnlock k]
+          else
+            let m1 ← if (m'.s.shuts k).pc = .polling then m'.apply [.shutPoll k] else some m'
+            m ← m1.apply [.shutCtx k, .shutUnlock k]
+          if rigA then m ← m.apply [.runAfterShutdown 0]
+        else
+          m ← m'.apply [.closeAll k, .closeUnlock k]
+          if rigA then m ← m.apply [.runAfterClose]
     if g < h.size then
       let e := h[g]!
       match e.action with
@@ -296,7 +331,7 @@ def assemble (h : Array Ev) (conns : List ConnId) (pl : Plan)
         if isLClose e then
           let (m', c') ← flushAll m conns sols cur
           cur := c'
-          m ← m'.apply (if e == .cancel then [a, .runCloseListeners, .runShutdown] else [a])
+          m ← m'.apply (if e == .cancel then [a, .runCloseListeners, .runShutdown 0] else [a])
         else match e.conn? with
           | some k =>
             let i := cur.getD k 0
@@ -313,65 +348,77 @@ def findIdx (h : Array Ev) (p : Ev → Bool) : Option Nat := h.findIdx? p
 
 def range (lo hi : Nat) : List Nat := (List.range (hi + 1 - lo)).map (· + lo)
 
-/-- candidate plans, in an order that finds ordinary schedules early -/
-def plans (h : Array Ev) : List Plan := Id.run do
-  let n := h.size
-  let dl := (findIdx h (· == .deadline)).map (· + 1)     -- first gap after the deadline
-  match findIdx h (· == .cancel) with
-  | some xc =>
-    let xr := (findIdx h (· == .runRet)).getD n
-    let mut out : List Plan := []
-    for p in range (xc + 1) xr do
-      for r in range p xr do
-        out := { p := some p, r := some r, isNil := true } :: out
-      match dl with
-      | some d =>
-        for r in range (max p d) xr do
-          for q in range r xr do
-            for q2 in range q xr do
-              out := { p := some p, r := some r, isNil := false, q := some q, q2 := some q2 } :: out
-      | none => pure ()
-    return out.reverse
-  | none =>
-    let sc := findIdx h (· == .shutCall)
-    let sr := findIdx h (fun e => match e with | .shutRet _ => true | _ => false)
-    let isNil := h.any (· == .shutRet true)
-    let cc := findIdx h (· == .closeCall)
-    let cr := (findIdx h (· == .closeRet)).getD n
-    let qs : Nat → List (Option Nat × Option Nat) := fun lo => match cc with
-      | some c => (range (max lo (c + 1)) cr).flatMap fun q => (range q cr).map fun q2 => (some q, some q2)
-      | none => [(none, none)]
-    match sc, sr with
-    | some sc, some sr =>
-      let mut out : List Plan := []
-      for p in range (sc + 1) sr do
-        let rlo := if isNil then p else max p (dl.getD (sr + 1))
-        for r in range rlo sr do
-          for q in qs r do
-            out := { p := some p, r := some r, isNil := isNil, q := q.1, q2 := q.2 } :: out
-      return out.reverse
-    | _, _ => return (qs 0).map fun q => { q := q.1, q2 := q.2 }
-
 def connsOf (h : Array Ev) : List ConnId :=
   h.foldl (fun acc e => match e.conn? with
     | some k => if acc.contains k then acc else acc ++ [k]
     | none => acc) []
 
+/-- the indices of the blocks of Shutdown calls that return the context's error: at their first poll
+    some connection is counted -/
+def errBlocks (pl : Plan) : List Nat :=
+  (List.range pl.blocks.size).filter fun i => let b := pl.blocks[i]!; b.shut && !b.isNil
+
+/-- all ways to name, for every block of `bs`, the connection that is counted at its first poll -/
+def assignments (conns : List ConnId) : List Nat → List (List (Nat × ConnId))
+  | [] => [[]]
+  | b :: bs => (assignments conns bs).flatMap fun rest => conns.map fun c => (b, c) :: rest
+
 /-- try one plan -/
 def tryPlan (h : Array Ev) (conns : List ConnId) (pl : Plan) : StateM Memo (Option (Array Action)) := do
   let mut sols : Std.HashMap ConnId (Array (List Mv)) := {}
   for k in conns do
-    match ← solveMemo h k pl false with
+    match ← solveMemo h k pl #[] with
     | some s => sols := sols.insert k s.toArray
     | none => return none
-  if pl.isNil ∨ pl.p.isNone then
+  let errs := errBlocks pl
+  if errs.isEmpty then
     return assemble h conns pl sols
-  -- Shutdown returned the context's error: some connection was counted at its first poll
-  for k in conns do
-    if let some s ← solveMemo h k pl true then
-      if let some as := assemble h conns pl (sols.insert k s.toArray) then
+  -- every Shutdown that returned the context's error: some connection was counted at its first poll
+  for asg in (assignments conns errs).take 256 do
+    let mut sols' := sols
+    let mut ok := true
+    for k in conns do
+      let mine := asg.filter (·.2 == k)
+      if !mine.isEmpty then
+        let mc : Array Bool := (Array.range pl.blocks.size).map fun i => mine.any (·.1 == i)
+        match ← solveMemo h k pl mc with
+        | some s => sols' := sols'.insert k s.toArray
+        | none => ok := false
+    if ok then
+      if let some as := assemble h conns pl sols' then
         return some as
   return none
+
+/-- a call as the history shows it -/
+structure CallInfo where
+  shut : Bool
+  id : CallId
+  call : Nat                 -- position of its call event
+  ret : Nat                  -- position of its return event
+  isNil : Bool := true
+  minEnd : Nat := 0          -- Shutdown returning the error: first gap after its context was done
+  deriving Repr, Inhabited, BEq
+
+/-- the calls of a history driven through the API that have returned (a call that never returned is not
+    given a section: the harness reports it as a hang) -/
+def callsOf (h : Array Ev) : List CallInfo := Id.run do
+  let mut out : List CallInfo := []
+  for i in [0:h.size] do
+    match h[i]! with
+    | .shutCall k _ _ =>
+      match findIdx h (fun e => match e with | .shutRet k' _ => k' == k | _ => false) with
+      | some r =>
+        let isNil := h[r]! == .shutRet k none
+        let dn := (findIdx h (fun e => e == .deadline k || e == .ctxCancel k)).map (· + 1)
+        out := out ++ [{ shut := true, id := k, call := i, ret := r, isNil := isNil,
+                         minEnd := if isNil then 0 else dn.getD (r + 1) }]
+      | none => pure ()
+    | .closeCall k =>
+      match findIdx h (· == .closeRet k) with
+      | some r => out := out ++ [{ shut := false, id := k, call := i, ret := r }]
+      | none => pure ()
+    | _ => pure ()
+  return out
 
 structure Verdict where
   ok : Bool
@@ -381,18 +428,73 @@ structure Verdict where
 
 def planCap : Nat := 60000
 
+structure Search where
+  memo : Memo := {}
+  tried : Nat := 0
+  found : Option (Array Action) := none
+
+/-- try a complete plan (counts towards the cap) -/
+def leaf (h : Array Ev) (conns : List ConnId) (pl : Plan) : StateM Search Bool := do
+  let st ← get
+  if st.found.isSome || st.tried ≥ planCap then return true
+  let (r, memo') := (tryPlan h conns pl).run st.memo
+  set { st with memo := memo', tried := st.tried + 1, found := r }
+  return r.isSome
+
+/-- depth-first enumeration of the orders and positions of the calls' sections; stops at the first plan
+    that works or at the cap -/
+partial def enumCalls (h : Array Ev) (conns : List ConnId) (calls : List CallInfo) (last : Nat)
+    (acc : Array Block) : StateM Search Bool := do
+  if calls.isEmpty then return ← leaf h conns { blocks := acc }
+  for c in calls do
+    let rest := calls.filter (· != c)
+    for a in range (max last (c.call + 1)) c.ret do
+      for b in range (max a c.minEnd) c.ret do
+        -- every other call must still fit behind this section
+        if rest.all (fun d => b ≤ d.ret) then
+          if ← enumCalls h conns rest b (acc.push { shut := c.shut, id := c.id, a := a, b := b, isNil := c.isNil }) then
+            return true
+  let st ← get
+  return st.found.isSome || st.tried ≥ planCap
+
+/-- candidate plans of a history driven through `run` (one Shutdown, then Close if it returned an error),
+    in an order that finds ordinary schedules early -/
+def plansRun (h : Array Ev) (xc : Nat) : List Plan := Id.run do
+  let n := h.size
+  -- first gap after run's context was done (deadline passed / second signal)
+  let dl := (findIdx h (fun e => e == .deadline 0 || e == .ctxCancel 0)).map (· + 1)
+  let xr := (findIdx h (· == .runRet)).getD n
+  let mut out : List Plan := []
+  for p in range (xc + 1) xr do
+    for r in range p xr do
+      out := { blocks := #[{ shut := true, id := 0, a := p, b := r, isNil := true }] } :: out
+    match dl with
+    | some d =>
+      for r in range (max p d) xr do
+        for q in range r xr do
+          for q2 in range q xr do
+            out := { blocks := #[{ shut := true, id := 0, a := p, b := r, isNil := false },
+                                 { shut := false, id := 0, a := q, b := q2 }] } :: out
+    | none => pure ()
+  return out.reverse
+
 def search (h : Array Ev) : Verdict := Id.run do
   let conns := connsOf h
-  let mut memo : Memo := {}
-  let mut tried := 0
-  for pl in plans h do
-    if tried ≥ planCap then return { ok := false, plansTried := tried, actions := #[], capped := true }
-    tried := tried + 1
-    let (r, memo') := (tryPlan h conns pl).run memo
-    memo := memo'
-    if let some as := r then
-      return { ok := true, plansTried := tried, actions := as }
-  return { ok := false, plansTried := tried, actions := #[] }
+  match findIdx h (· == .cancel) with
+  | some xc =>
+    let mut st : Search := {}
+    for pl in plansRun h xc do
+      let (_, st') := (leaf h conns pl).run st
+      st := st'
+      if st.found.isSome || st.tried ≥ planCap then break
+    match st.found with
+    | some as => return { ok := true, plansTried := st.tried, actions := as }
+    | none => return { ok := false, plansTried := st.tried, actions := #[], capped := st.tried ≥ planCap }
+  | none =>
+    let (_, st) := (enumCalls h conns (callsOf h) 0 #[]).run {}
+    match st.found with
+    | some as => return { ok := true, plansTried := st.tried, actions := as }
+    | none => return { ok := false, plansTried := st.tried, actions := #[], capped := st.tried ≥ planCap }
 
 /-- the check that makes acceptance trustworthy: the action list runs in the model and its visible
     part is the history -/
@@ -454,20 +556,24 @@ def before (a : Option Nat) (b : Option Nat) : Bool :=
 def clauses (h : Array Ev) : List Fail := Id.run do
   let conns := connsOf h
   let known := posOf h (· == .known)
-  let begun := match posOf h (· == .shutCall), posOf h (· == .cancel), posOf h (· == .closeCall) with
-    | some a, _, _ => some a
-    | _, some b, _ => some b
-    | _, _, c => c
-  let retNil := match posOf h (· == .shutRet true) with
-    | some a => some a
-    | none => none
-  let forced := match posOf h (· == .closeCall), posOf h (· == .deadline) with
+  let isShutCall : Ev → Bool := fun e => match e with | .shutCall .. => true | _ => false
+  let isCloseCall : Ev → Bool := fun e => match e with | .closeCall _ => true | _ => false
+  let isCtxDone : Ev → Bool := fun e => match e with | .deadline _ | .ctxCancel _ => true | _ => false
+  -- the first call of anything
+  let begun := posOf h (fun e => isShutCall e || isCloseCall e || e == .cancel)
+  -- every return of nil by a call of Shutdown
+  let retNils : List Nat := (List.range h.size).filter fun i => match h[i]! with
+    | .shutRet _ none => true
+    | _ => false
+  -- from here on exchanges may be cut: the first call of Close; under `run` (which calls Close as soon as its
+  -- Shutdown gave up) the moment run's context is done (deadline passed / second signal)
+  let forced := match posOf h isCloseCall, (if h.any (· == .cancel) then posOf h isCtxDone else none) with
     | some a, some b => some (min a b)
     | some a, none => some a
     | none, b => b
-  -- Run's return when no deadline precedes it
+  -- Run's return when its context was not done before
   let runRetFree : Option Nat := match posOf h (· == Ev.runRet) with
-    | some rr => if before (posOf h (· == Ev.deadline)) (some rr) then none else some rr
+    | some rr => if before (posOf h isCtxDone) (some rr) then none else some rr
     | none => none
   let mut out : List Fail := []
   for k in conns do
@@ -493,9 +599,8 @@ def clauses (h : Array Ev) : List Fail := Id.run do
           | none => false)
         if r.isNone ∧ !excused then
           out := out ++ [{ clause := "exchange-at-origin-before-shutdown-did-not-complete", conn := k }]
-    -- (4) Shutdown returned nil although the connection was still being served
-    match retNil with
-    | some rn =>
+    -- (4) a call of Shutdown — the first or a later one — returned nil although the connection was still being served
+    for rn in retNils do
       for j in [0:nOrigin] do
         let o := nth h (isOrigin k) j
         let a := nth h (isAnswer k) j
@@ -504,7 +609,6 @@ def clauses (h : Array Ev) : List Fail := Id.run do
       for j in [0:nResp] do
         if before (some rn) (nth h (isSend k) j) then
           out := out ++ [{ clause := "request-sent-after-shutdown-returned-nil-was-answered", conn := k }]
-    | none => pure ()
     -- (5) a response the origin released after closing was known carries Connection: close — except the
     --     200 of a CONNECT (fixed bytes without a Connection field), which is followed by the tunnel: (8), (9)
     for j in [0:nResp] do
@@ -551,12 +655,26 @@ def clauses (h : Array Ev) : List Fail := Id.run do
           | none => false)
         if !echoed && !excused then
           out := out ++ [{ clause := "connect-answered-200-but-the-tunnel-relayed-nothing", conn := k }]
-  -- (6) Shutdown returns the context's error only after the deadline
-  match posOf h (· == .shutRet false) with
-  | some e =>
-    if !(before (posOf h (· == .deadline)) (some e)) then
-      out := out ++ [{ clause := "shutdown-returned-error-before-the-deadline", conn := 0 }]
-  | none => pure ()
+  -- (10) nothing is served any more once Run has returned / a Close has returned: an answer its origin released
+  --      after that does not reach the client
+  let ends : List Nat := (List.range h.size).filter fun i => match h[i]! with
+    | .runRet | .closeRet _ => true
+    | _ => false
+  for k in conns do
+    for j in [0:countEv h (isResp k)] do
+      if ends.any (fun e => before (some e) (nth h (isAnswer k) j)) then
+        out := out ++ [{ clause := "response-relayed-after-run-or-close-returned", conn := k }]
+  -- (6) every call of Shutdown returns the error of ITS context, and only after that context was done for that
+  --     reason (deadline passed: DeadlineExceeded; cancelled: Canceled)
+  for i in [0:h.size] do
+    match h[i]! with
+    | .shutRet k (some w) =>
+      let cause : Ev := match w with
+        | .deadline => .deadline k
+        | .cancel => .ctxCancel k
+      if !(before (posOf h (· == cause)) (some i)) then
+        out := out ++ [{ clause := "shutdown-returned-error-before-its-own-context-was-done", conn := k }]
+    | _ => pure ()
   return out
 
 /-! ## wire -/
@@ -579,15 +697,28 @@ def parseEv (s : String) : Option Ev :=
   | ["x", k] => do some (.closed (← k.toNat?))
   | ["t", k] => do some (.echo (← k.toNat?))
   | ["L"] => some .lclose
-  | ["SC"] => some .shutCall
-  | ["SR", n] => do some (.shutRet (← parseBool n))
-  | ["CC"] => some .closeCall
-  | ["CR"] => some .closeRet
-  | ["D"] => some .deadline
+  | ["SC"] => some (.shutCall 0 false false)
+  | ["SC", k, nl, cb] => do some (.shutCall (← k.toNat?) (← parseBool nl) (← parseBool cb))
+  | ["SR", n] => do some (.shutRet 0 (if (← parseBool n) then none else some .deadline))
+  | ["SR", k, r] => do
+    let r ← match r with
+      | "n" => some none
+      | "d" => some (some Why.deadline)
+      | "c" => some (some Why.cancel)
+      | _ => none
+    some (.shutRet (← k.toNat?) r)
+  | ["CC"] => some (.closeCall 0)
+  | ["CC", k] => do some (.closeCall (← k.toNat?))
+  | ["CR"] => some (.closeRet 0)
+  | ["CR", k] => do some (.closeRet (← k.toNat?))
+  | ["D"] => some (.deadline 0)
+  | ["D", k] => do some (.deadline (← k.toNat?))
+  | ["Z", k] => do some (.ctxCancel (← k.toNat?))
   | ["X"] => some .cancel
   | ["XR"] => some .runRet
   | ["K"] => some .known
   | ["NL"] => some .nolimit
+  | ["SG"] => some .signals
   | _ => none
 
 def parseHistory (s : String) : Option (List Ev) := (Wire.splitList s).mapM parseEv
